@@ -107,6 +107,9 @@ type Exec struct {
 	curEpoch   int
 	spec       *specLog
 	merges     int
+	ivCache    map[int]ival
+	typeObjs   map[string]*Object
+	varRange   map[string]ival
 	funcs      map[string]bool
 }
 
@@ -170,6 +173,7 @@ func (x *Exec) assume(c *smt.Term) {
 	}
 	x.pc = append(x.pc, c)
 	x.sol.Assert(x.st, c)
+	x.learn(c)
 }
 
 func (x *Exec) replaying() bool { return x.tpos < len(x.trace) }
@@ -301,6 +305,12 @@ func (x *Exec) check(c *smt.Term, kind, msg string) {
 		return
 	}
 	x.specGuard("check")
+	if x.replaying() {
+		// this check was decided (and any violation recorded) by the path that forked
+		// later than this point with the same path condition
+		x.assumeChecked(c)
+		return
+	}
 	site := kind + ":" + msg + "@" + x.posStr()
 	if x.h.siteSeen(site) >= x.h.MaxPerSite {
 		// already reported often enough: only keep exploring the good side
@@ -760,6 +770,13 @@ func (x *Exec) coerceLeaf(raw Value, size int, kind leafKind) Value {
 			return Ptr{Obj: nil, Off: r}
 		case *Func:
 			return r
+		case ifaceTypeWord:
+			if r.T == nil {
+				return x.nilPtr()
+			}
+			return Ptr{Obj: x.typeObject(r.T), Off: x.c64(0)}
+		case ifaceDataWord:
+			return x.boxDataWord(r)
 		}
 	case lkFunc:
 		switch r := raw.(type) {
@@ -793,6 +810,13 @@ func (x *Exec) coerceLeaf(raw Value, size int, kind leafKind) Value {
 			if r.IsConst() && r.Val == 0 {
 				return ifaceTypeWord{}
 			}
+		case Ptr:
+			if isNilPtr(r) {
+				return ifaceTypeWord{}
+			}
+			if r.Obj != nil && r.Obj.TypeOf != nil && r.Off.IsConst() && r.Off.Val == 0 {
+				return ifaceTypeWord{r.Obj.TypeOf}
+			}
 		}
 	case lkIfaceD:
 		switch r := raw.(type) {
@@ -804,9 +828,60 @@ func (x *Exec) coerceLeaf(raw Value, size int, kind leafKind) Value {
 			if r.IsConst() && r.Val == 0 {
 				return ifaceDataWord{}
 			}
+		case Ptr:
+			return ifaceDataWord{V: r, raw: true}
 		}
 	}
 	x.notEncoded("reinterpreting memory cell %T as leaf kind %d", raw, kind)
+	return nil
+}
+
+// directIface reports whether values of type t are stored directly in an interface's data word.
+func directIface(t types.Type) bool {
+	switch u := t.Underlying().(type) {
+	case *types.Pointer, *types.Map, *types.Chan, *types.Signature:
+		return true
+	case *types.Basic:
+		return u.Kind() == types.UnsafePointer
+	}
+	return false
+}
+
+// typeObject returns the unique object standing for the runtime type descriptor of t.
+func (x *Exec) typeObject(t types.Type) *Object {
+	k := typeKey(t)
+	if o, ok := x.typeObjs[k]; ok {
+		return o
+	}
+	if x.typeObjs == nil {
+		x.typeObjs = map[string]*Object{}
+	}
+	o := x.newObject(64, nil, "type:"+k)
+	o.TypeOf = t
+	o.ReadOnly = true
+	o.Junk = func(off int) *smt.Term { return x.junk(8) }
+	x.typeObjs[k] = o
+	return o
+}
+
+// boxDataWord turns an interface data word into the pointer the runtime would hold.
+func (x *Exec) boxDataWord(d ifaceDataWord) Value {
+	if d.raw {
+		return d.V
+	}
+	if d.V == nil {
+		return x.nilPtr()
+	}
+	if d.box != nil {
+		return Ptr{Obj: d.box, Off: x.c64(0)}
+	}
+	switch v := d.V.(type) {
+	case Ptr:
+		return v // pointer-shaped values are stored directly
+	case MapRef, *Func:
+		x.notEncoded("data word of a map/func interface read as a pointer")
+	}
+	x.notEncoded("interface data word read as a pointer without type information")
 	return nil
 }
 
@@ -819,6 +894,9 @@ func (x *Exec) checkAccess(p Ptr, size int, what string) {
 		x.notEncoded("dereference of integer-valued pointer")
 	}
 	o := p.Obj
+	if o.Ghost != nil && o.Ghost["inpool"] == true && size > 0 {
+		x.check(x.st.False, "assert", what+" on an object that is currently in a sync.Pool (use after Put): "+o.String())
+	}
 	if p.Off.IsConst() && o.LSize == nil {
 		off := p.Off.SVal()
 		if off < 0 || int(off)+size > o.Size {
@@ -875,7 +953,11 @@ func (x *Exec) candidates(p Ptr, n int) []int {
 	}
 	var r []int
 	start := ((p.Base % stride) + stride) % stride
+	iv := x.interval(p.Off)
 	for k := start; k+n <= p.Obj.Size; k += stride {
+		if uint64(k) < iv.lo || uint64(k) > iv.hi {
+			continue
+		}
 		r = append(r, k)
 	}
 	if len(r) > 4096 {
@@ -1037,6 +1119,17 @@ func (x *Exec) loadT(p Ptr, extra int, t types.Type) Value {
 		if tw.T == nil {
 			return Iface{}
 		}
+		if dw.raw {
+			// data word written as a plain pointer (rt.GoEface.Pack and friends)
+			dp := dw.V.(Ptr)
+			if directIface(tw.T) {
+				return Iface{T: tw.T, V: dp}
+			}
+			if dp.Obj == nil {
+				x.notEncoded("interface built from a nil data pointer for type %s", tw.T)
+			}
+			return Iface{T: tw.T, V: x.loadT(dp, 0, tw.T)}
+		}
 		return Iface{T: tw.T, V: dw.V}
 	case *types.Struct:
 		s := make(Struct, u.NumFields())
@@ -1142,7 +1235,24 @@ func (x *Exec) storeT(p Ptr, extra int, t types.Type, v Value) {
 			x.storeLeafP(p, extra+8, 8, x.c64(0))
 		} else {
 			x.storeLeafP(p, extra, 8, ifaceTypeWord{i.T})
-			x.storeLeafP(p, extra+8, 8, ifaceDataWord{i.V})
+			dw := ifaceDataWord{V: i.V}
+			if !directIface(i.T) {
+				// lazily materialised box: an object holding the value, as the runtime does
+				func() {
+					defer func() {
+						if r := recover(); r != nil {
+							if pa, ok := r.(pathAbort); ok && pa.kind == abNotEncoded {
+								return
+							}
+							panic(r)
+						}
+					}()
+					bo := x.newObject(max(x.sizeof(i.T), 1), i.T, "ifacebox")
+					x.storeT(Ptr{Obj: bo, Off: x.c64(0)}, 0, i.T, i.V)
+					dw.box = bo
+				}()
+			}
+			x.storeLeafP(p, extra+8, 8, dw)
 		}
 	case *types.Struct:
 		s, ok := v.(Struct)
@@ -1228,7 +1338,11 @@ func (x *Exec) maxLen(p Ptr, l *smt.Term, esize int) int {
 	} else {
 		base = ((p.Base % max(p.Stride, 1)) + max(p.Stride, 1)) % max(p.Stride, 1)
 	}
-	return (p.Obj.Size - base) / esize
+	r := (p.Obj.Size - base) / esize
+	if iv := x.interval(l); iv.hi < uint64(r) {
+		r = int(iv.hi)
+	}
+	return r
 }
 
 // byteOf returns the byte at index i (term) of the byte sequence at p.
@@ -1431,7 +1545,7 @@ func (x *Exec) runInit(fn *ssa.Function) {
 				defer func() {
 					if r := recover(); r != nil {
 						pa, ok := r.(pathAbort)
-						if !ok || pa.kind != abNotEncoded {
+						if !ok {
 							panic(r)
 						}
 						if v, ok := ins.(ssa.Value); ok {
@@ -1449,6 +1563,12 @@ func (x *Exec) runInit(fn *ssa.Function) {
 				case *ssa.Call:
 					// skip dependency inits (done on demand)
 					if f, ok := i.Call.Value.(*ssa.Function); ok && f.Name() == "init" && f.Pkg != fn.Pkg {
+						return
+					}
+					// user-declared init functions (registration, CPU dispatch, JIT set-up) are not run:
+					// what they would set is bound by the harness (stubs) instead
+					if f, ok := i.Call.Value.(*ssa.Function); ok && strings.HasPrefix(f.Name(), "init#") && !x.h.RunInitFuncs[f.Pkg.Pkg.Path()] {
+						x.note("init-func-skipped:" + f.Pkg.Pkg.Path() + "." + f.Name())
 						return
 					}
 				case *ssa.If:
@@ -1488,7 +1608,9 @@ func (x *Exec) runInit(fn *ssa.Function) {
 // ---------- call machinery ----------
 
 func (x *Exec) call(fn *ssa.Function, args []Value, env []Value) Value {
-	x.specGuard("call")
+	if x.spec != nil {
+		panic(pathAbort{abSpec, "call"})
+	}
 	if fn == nil {
 		x.goPanic("call of nil function")
 	}
@@ -1655,6 +1777,10 @@ func (x *Exec) specNote(o *Object, off, size int) {
 func (x *Exec) specGuard(what string) {
 	if x.spec != nil {
 		panic(pathAbort{abSpec, what})
+	}
+	if x.lenient > 0 {
+		// package initialisers are executed best-effort and never fork or report
+		panic(pathAbort{abNotEncoded, "symbolic " + what + " during package init"})
 	}
 }
 
